@@ -690,6 +690,84 @@ impl Space for EditAfterLoad {
     }
 }
 
+/// Second editing session: a saved workbook is reloaded and NEW cells are formatted with styles built from scratch, some
+/// equal to styles the file already contains, some new. Twin oracle: a workbook given all styles in one session.
+struct SecondSession {
+    s1: Vec<Spec>,
+    fresh: Vec<Spec>,
+}
+impl SecondSession {
+    fn decode(&self, i: u64) -> (usize, usize) {
+        ((i / self.fresh.len() as u64) as usize, (i % self.fresh.len() as u64) as usize)
+    }
+    fn specs(&self, i: u64) -> (Vec<Spec>, Vec<Spec>) {
+        let (a, f) = self.decode(i);
+        let other: Spec = vec![(2, 0), (3, 0)];
+        // first session: B1 = s_a, B2 = another style; second session: B3 = B4 = s_a rebuilt, B5 = a fresh style, B6 = s_a again
+        let first = vec![self.s1[a].clone(), other];
+        let second = vec![self.s1[a].clone(), self.s1[a].clone(), self.fresh[f].clone(), self.s1[a].clone()];
+        (first, second)
+    }
+}
+impl Space for SecondSession {
+    fn len(&self) -> u64 {
+        (self.s1.len() * self.fresh.len()) as u64
+    }
+    fn describe(&self, i: u64) -> Value {
+        let (first, second) = self.specs(i);
+        json!({"kind":"second-session","first_session": first.iter().map(spec_json).collect::<Vec<_>>(), "second_session": second.iter().map(spec_json).collect::<Vec<_>>(), "history": "first-session cells B1..; save+reload; second-session cells appended below with styles built from scratch; save+reload"})
+    }
+    fn tags(&self, i: u64) -> Vec<String> {
+        let (a, f) = self.decode(i);
+        let mut t = spec_tags(&self.s1[a]);
+        t.extend(spec_tags(&self.fresh[f]).into_iter().map(|x| format!("fresh-{}", x)));
+        t.push("second-session".into());
+        t
+    }
+    fn run(&self, i: u64, sink: &mut Sink) {
+        let tags = self.tags(i);
+        let tg: Vec<&str> = tags.iter().map(|s| s.as_str()).collect();
+        let case = self.describe(i);
+        sink.evaluations += 1;
+        let (first, second) = self.specs(i);
+        let light = i % 2 == 1;
+        let n1 = first.len();
+        let all: Vec<Spec> = first.iter().chain(second.iter()).cloned().collect();
+        let run = || -> Result<(Vec<Value>, Vec<Value>), String> {
+            let (_, mut h) = roundtrip(&build_style_book(&first), light)?;
+            {
+                let ws = h.get_sheet_mut(&0).unwrap();
+                for (k, sp) in second.iter().enumerate() {
+                    let c = ws.get_cell_mut((2u32, (n1 + k) as u32 + 1));
+                    c.set_value_number(k as f64);
+                    c.set_style(make_style(sp));
+                }
+            }
+            let (_, h2) = roundtrip(&h, light)?;
+            let (_, t2) = roundtrip(&build_style_book(&all), light)?;
+            let dh = calibrate(h2.get_sheet(&0).unwrap());
+            let dt = calibrate(t2.get_sheet(&0).unwrap());
+            let proj = |b: &Spreadsheet, d: &Map<String, Value>| -> Vec<Value> { (0..all.len()).map(|k| effective(&style_p(b.get_sheet(&0).unwrap().get_style((2u32, k as u32 + 1))), d)).collect() };
+            Ok((proj(&h2, &dh), proj(&t2, &dt)))
+        };
+        match std::panic::catch_unwind(std::panic::AssertUnwindSafe(run)) {
+            Err(e) => sink.violations.push(Violation::new("roundtrip-succeeds", &format!("panic:{}", panic_class(&panic_msg(&e))), &tg, case, panic_msg(&e))),
+            Ok(Err(e)) => sink.violations.push(Violation::new("roundtrip-succeeds", &format!("failed:{}", panic_class(&e)), &tg, case, e)),
+            Ok(Ok((h, t))) => {
+                sink.obs(&json!(h).to_string());
+                for k in 0..all.len() {
+                    if h[k] != t[k] {
+                        let d = first_diff(&t[k], &h[k]).map(|(p, l, r)| format!("B{} {}: twin {} history {}", k + 1, p, l, r)).unwrap_or_default();
+                        let clause = if k < n1 { "styles-stay-distinct" } else { "style-preserved" };
+                        sink.violations.push(Violation::new(clause, &format!("second-session-differs-from-twin:{}", component_symptom(&t[k], &h[k])), &tg, case.clone(), d));
+                        break;
+                    }
+                }
+            }
+        }
+    }
+}
+
 trait AsRefStyle {
     fn as_ref_style(&self) -> &Style;
 }
@@ -718,6 +796,11 @@ pub fn space(tier: Tier, id: &str) -> Option<Box<dyn Space>> {
         }
         "dims" => Some(Box::new(Dims)),
         "transfer" => Some(Box::new(Transfer { s1: sigma1() })),
+        "second-session" => {
+            let fresh: Vec<Spec> = vec![vec![], vec![(4, 0)], vec![(0, 2)], vec![(1, 1)], vec![(0, 0), (1, 2)]];
+            let s1 = if tier == Tier::Thorough { let mut v = sigma1(); v.extend(collision_family()); v } else { sigma1() };
+            Some(Box::new(SecondSession { s1, fresh }))
+        }
         "edit-after-load" => {
             let vars: Vec<(usize, usize)> = sigma1().into_iter().filter(|s| s.len() == 1).map(|s| s[0]).collect();
             let s1 = if tier == Tier::Thorough { sigma1() } else { sigma1().into_iter().step_by(3).collect() };
@@ -738,7 +821,7 @@ fn replay(tier: Tier, case: &Value) -> Vec<Violation> {
 }
 
 fn run(ctx: &Ctx) -> i32 {
-    let ids = ["pairs", "all-at-once", "dims", "transfer", "edit-after-load"];
+    let ids = ["pairs", "all-at-once", "dims", "transfer", "edit-after-load", "second-session"];
     let spaces = ids.iter().map(|id| (*id, space(ctx.tier, id).unwrap())).collect();
     run_e1(
         ctx,
@@ -746,7 +829,7 @@ fn run(ctx: &Ctx) -> i32 {
             spaces,
             cfg: PoolCfg { chunk: 16, case_timeout: std::time::Duration::from_secs(300), ..Default::default() },
             level: "exploration",
-            rule: "style alphabet = base + every single-attribute variation (sigma1) + every pair of variations (sigma2) + a separator-collision family; (pairs) every ordered pair of sigma1 in a two-cell workbook, alternating writers; (all-at-once) whole sets in one workbook in forward and reverse order, which covers every ordered (earlier, later) pair for interning merges; (dims) every assignment of 4 states to columns 1..5 and rows 1..3; (transfer) every sigma1 style read back from one workbook and given to a cell of another reloaded workbook whose tables use the same ids for other components; (edit-after-load) two cells sharing one sigma1 style (quick: every third), reloaded, one of them edited in place with every single variation, compared with a twin workbook that was given the final styles directly (the sibling must not change). Oracle: field-by-field effective style projection given == reloaded, where a never-set component equals the component shown by control cells after reload; style tables of generation 2 == generation 3 (read by the independent Python decoder). distinct_nontrivial = distinct reloaded effective projections".into(),
+            rule: "style alphabet = base + every single-attribute variation (sigma1) + every pair of variations (sigma2) + a separator-collision family; (pairs) every ordered pair of sigma1 in a two-cell workbook, alternating writers; (all-at-once) whole sets in one workbook in forward and reverse order, which covers every ordered (earlier, later) pair for interning merges; (dims) every assignment of 4 states to columns 1..5 and rows 1..3; (transfer) every sigma1 style read back from one workbook and given to a cell of another reloaded workbook whose tables use the same ids for other components; (edit-after-load) two cells sharing one sigma1 style (quick: every third), reloaded, one of them edited in place with every single variation, compared with a twin workbook that was given the final styles directly (the sibling must not change); (second-session) a saved workbook is reloaded and new cells get styles built from scratch - three times a style the file already contains and once another one - compared cell by cell with a twin that was given everything in one session. Oracle: field-by-field effective style projection given == reloaded, where a never-set component equals the component shown by control cells after reload; style tables of generation 2 == generation 3 (read by the independent Python decoder). distinct_nontrivial = distinct reloaded effective projections".into(),
             alphabets: json!({"attributes": ATTRS.iter().map(|a| format!("{}x{}", a.0, a.1)).collect::<Vec<_>>(), "sigma1": sigma1().len(), "sigma2": sigma2().len(), "collision_family": collision_family().len()}),
             bounds: json!({"all-at-once": if ctx.tier == Tier::Thorough {"sigma1 + sigma2 + collision family in one workbook"} else {"sigma1; collision family; sigma2 restricted to the seven font attributes"}}),
             exhaustive: true,
